@@ -7,6 +7,7 @@ order of submissions, quiet-period timers, function completions, producer steps 
 
 step kinds:  c  plain call            p  pause (next symbolic pause)
              m  map(list of 2)        i  map(iterator of 2, may fail at fp)      e  map(empty list)
+             L  map(one-shot iterator of LONG = 100 elements)
              a  await_(awaitable finishing after the next symbolic delay; fails if fp == 0)
              g  amap(async generator of 2, next symbolic delay per element, may fail at fp)
              w/W  await wait(cancel=True/False)      b/B  wait(cancel=True/False) as a concurrent task
@@ -126,6 +127,11 @@ def run_prog(shape, pauses, dur, fails, fp, *, timeout=T, shutdown_at=None, via_
                         if fp < 0 or i < fp:
                             R['subs'].append((loop.time(), x, 'slow'))
                     b.map(gen())
+                elif kind == 'L':     # map(long one-shot iterator): far more elements than any plausible read-ahead limit of the bridge
+                    xs = fresh(LONG)
+                    for x in xs:
+                        R['subs'].append((loop.time(), x, 'slow'))
+                    b.map(iter(xs))
                 elif kind == 'a':
                     x, = fresh()
                     d = next_pause()
@@ -396,6 +402,7 @@ def _cell(prop, shape, tier, tmo, dmax=25, pmax=25, fp=None, weight=2, deco=Fals
 
 
 # shape -> split level (0 none, 1 pauses, 2 pauses and duration)
+LONG = 100
 QUICK_SHAPES = {
     'C03': {'cwc': 0, 'ckpc': 0, 'kpc': 0, 'cpwpc': 0, 'cpc': 0, 'cpcw': 0, 'mpc': 0, 'ipc': 0, 'apc': 2, 'cpa': 2, 'epc': 0},
     'C07': {'cwpcw': 0, 'ckw': 0, 'kpcW': 0, 'cw': 0, 'cW': 0, 'cpw': 0, 'cpW': 0, 'cpcw': 0, 'cbpw': 0, 'cBpc': 0, 'aw': 0, 'gW': 0, 'ew': 0, 'cpbpB': 2, 'ipw': 0},
@@ -413,6 +420,9 @@ def cells(prop, tier):
     for sh, sp in QUICK_SHAPES[prop].items():
         out += _cell(prop, sh, 'quick', 300, split=sp)
     if prop == 'C03':
+        # long one-shot iterator through map() (read-ahead limits / dropped hand-overs in the sync->async bridge); narrow timing ranges
+        for c in _cell(prop, 'Lpc', 'quick', 900, dmax=2, pmax=12, weight=4):
+            out.append(c)
         out += _cell(prop, 'cpc', 'quick', 300, deco=True)
         for fpv in (-1, 1):     # async-generator producer: failure position fixed per cell
             for c in _cell(prop, 'gpc', 'quick', 300, fp=fpv, split=2):
